@@ -80,6 +80,10 @@ VALIDATORS = {
     'line-pattern': ('LinePatternValidator', ' line-pattern="^a+$"'),
     'line-count': ('LineCountValidator', ' line-count="<0"'),
     'affects': ('AffectsValidator', ' affects=":missing"'),
+    # start tags written over two and three lines (one attribute per line): the range still runs '<'..'>'
+    'line-count/2': ('LineCountValidator', ' line-count="<0"\n      x="1"'),
+    'line-count/3': ('LineCountValidator', ' line-count="<0"\n      x="1"\n   yyy="22"'),
+    'affects/3': ('AffectsValidator', ' affects=":missing"\n  x="1"\n        yy="2"'),
 }
 
 
@@ -105,9 +109,11 @@ def install_regex_stub(I):
 
 def run_case(task):
     kind, lay_spec, line_specs, want_sample = task
+    vkind = kind
+    kind = kind.split('/')[0]
     prog = driver.load_program()
     stats = PathStats()
-    vtype, attrs = VALIDATORS[kind]
+    vtype, attrs = VALIDATORS[vkind]
     out = dict(violations=[], samples=[], obligations=0, cover={}, panic_paths=0)
     holder = {}
     roles = set()
@@ -332,7 +338,7 @@ def main(tier):
         rnd.shuffle(rest)
         for i, (lay, ls) in enumerate(head + rest[:b['per_kind'] - len(head)]):
             tasks.append((kind, lay, ls, i % 4 == 0))
-    for kind in ('line-count', 'affects'):
+    for kind in ('line-count', 'affects', 'line-count/2', 'line-count/3', 'affects/3'):
         for lay in b['layouts']:
             tasks.append((kind, lay, ((0, 0, 0), ((0, 1, 0),), (0, 0, 0)), True))
     results = pmap(run_case, tasks, chunksize=4)
